@@ -380,3 +380,11 @@ def _maximum(ip, a, b):
     if s == FP32:
         return z3.If(z3.fpIsNaN(x), x, z3.If(z3.fpIsNaN(y), y, z3.If(z3.fpGT(y, x), y, x)))
     return z3.If(y > x, y, x)
+
+
+def _zattr_name(ip, v):
+    """`.name` of an enum-typed symbolic int (only used for log messages)"""
+    return ip.uf("enum_name", v)
+
+
+MODELS["zattr:name"] = _zattr_name
